@@ -30,6 +30,8 @@ type opCLICase struct {
 	// Defs: the input files are TTML documents carrying style and region definitions (referenced or not, with an
 	// identifier that both files define)
 	Defs bool `json:"defs,omitempty"`
+	// InVTT: the input files are WebVTT documents with an X-TIMESTAMP-MAP header (a segment of a stream)
+	InVTT bool `json:"in_vtt,omitempty"`
 	// Extra: the command line also carries flags that belong to other sub-commands (they have no effect on this one)
 	Extra bool `json:"extra,omitempty"`
 }
@@ -89,6 +91,14 @@ func checkOpCLI(c opCLICase) string {
 	if c.Defs {
 		in, other = filepath.Join(dir, "in.ttml"), filepath.Join(dir, "other.ttml")
 		inDoc, otherDoc = ttmlWithDefs(c.Cues, "A"), ttmlWithDefs(c.Other, "B")
+	}
+	if c.InVTT && !c.Defs {
+		vttOf := func(cues []cueSpec) []byte {
+			b := bytes.ReplaceAll(srtOf(cues), []byte(","), []byte("."))
+			return append([]byte("WEBVTT\nX-TIMESTAMP-MAP=LOCAL:00:00:00.000,MPEGTS:900000\n\n"), b...)
+		}
+		in, other = filepath.Join(dir, "in.vtt"), filepath.Join(dir, "other.vtt")
+		inDoc, otherDoc = vttOf(c.Cues), vttOf(c.Other)
 	}
 	if os.WriteFile(in, inDoc, 0o644) != nil || os.WriteFile(other, otherDoc, 0o644) != nil {
 		return ""
@@ -178,7 +188,8 @@ func cliCases(t *testing.T, pid, sub string) {
 			}
 			return cs
 		}
-		c := opCLICase{Sub: sub, Cues: ms(genCues(rt, 1, 6, maxT, []string{"a", "b", "a|b"})), Ext: rapid.SampledFrom([]string{"srt", "vtt", "ttml", "SRT", "Ttml", "VTT"}).Draw(rt, "ext")}
+		c := opCLICase{Sub: sub, Cues: ms(genCues(rt, 1, 6, maxT, []string{"a", "b", "a|b"})), Ext: rapid.SampledFrom([]string{"srt", "vtt", "ttml", "SRT", "Ttml", "VTT", "ssa", "ass"}).Draw(rt, "ext")}
+		c.InVTT = rapid.IntRange(0, 3).Draw(rt, "invtt") == 0
 		var maxEnd int64 = nsMs
 		for _, cu := range c.Cues {
 			if cu.E > maxEnd {
